@@ -657,7 +657,7 @@ class GCXS(SparseArray, NDArrayOperatorsMixin):
             raise NotImplementedError("The 'order' parameter is not supported")
         if any(d == -1 for d in shape):
             known = reduce(operator.mul, (d for d in shape if d != -1), 1)
-            if known == 0 or self.size % known != 0:
+            if shape.count(-1) > 1 or known == 0 or self.size % known != 0:
                 raise ValueError(f"cannot reshape array of size {self.size} into shape {shape}")
             extra = self.size // known
             shape = tuple([d if d != -1 else extra for d in shape])
